@@ -4,7 +4,7 @@
 # given packages still pass, demo FAILS with the change and PASSES without it.
 set -u
 SD="$1"; V="$2"; shift 2
-W=/tmp/scratch
+W=${W:-/tmp/scratch}
 . /verif/bin/env.sh
 cd $W && git checkout -q -- . && git clean -fdq
 git apply --check "$SD/$V.patch" || { echo "SEED: patch does not apply"; exit 2; }
